@@ -316,7 +316,8 @@ def generate(rng, tier):
         v = rand_len_value(rng, rng.choice([64, 65]))
         cases.append("i.fmt %s %s" % (fmt_token(kind, 1, 1, 1, 30000 if kind == "b" else 2000, 42, "c"), I(-v)))
         cases.append("u.fmt %s %s" % (fmt_token(kind, 0, 1, 0, 0, 32, "n"), U(v)))
-    return cases
+    import extra_cases          # API-audit additions (docs/API_COVERAGE.md); produced after the original cases
+    return cases + extra_cases.c06(rng, tier)
 
 def nontrivial(case):
     toks = case.split(" ")
